@@ -32,10 +32,31 @@ func (p *Program) defTable() map[types.Object]*defInfo {
 		}
 		return d
 	}
+	// parameters, receivers and named results are bound when the function is entered: that is their first
+	// definition, and it has no expression (an assignment in the body is a second one)
+	bound := func(fl *ast.FieldList) {
+		if fl == nil {
+			return
+		}
+		for _, f := range fl.List {
+			for _, nm := range f.Names {
+				if o := info.Defs[nm]; o != nil && nm.Name != "_" {
+					get(o).count++
+				}
+			}
+		}
+	}
 	for _, pkg := range p.All {
 		for _, f := range pkg.Syntax {
 			ast.Inspect(f, func(n ast.Node) bool {
 				switch x := n.(type) {
+				case *ast.FuncDecl:
+					bound(x.Recv)
+					bound(x.Type.Params)
+					bound(x.Type.Results)
+				case *ast.FuncLit:
+					bound(x.Type.Params)
+					bound(x.Type.Results)
 				case *ast.AssignStmt:
 					for i, l := range x.Lhs {
 						id, ok := ast.Unparen(l).(*ast.Ident)
@@ -798,7 +819,7 @@ func (p *Program) constTable(x ast.Expr) []*ast.KeyValueExpr {
 		return t
 	}
 	var entries []*ast.KeyValueExpr
-	if p.globalNeverWritten(g) {
+	if p.globalNeverWritten(g) && p.onlyLookedUp(g) {
 		for _, pkg := range p.All {
 			for _, f := range pkg.Syntax {
 				for _, d := range f.Decls {
@@ -837,6 +858,68 @@ func (p *Program) constTable(x ast.Expr) []*ast.KeyValueExpr {
 	}
 	p.constTables[g] = entries
 	return entries
+}
+
+// onlyLookedUp: every mention of the package-level map g reads it - the operand of an index expression that is not
+// stored to, incremented or deleted from, of a range statement, or of len. Anything else (passed on, assigned to
+// another name, cleared) could change it behind the table's back.
+func (p *Program) onlyLookedUp(g *types.Var) bool {
+	ok := true
+	for _, pkg := range p.All {
+		for _, f := range pkg.Syntax {
+			ast.Inspect(f, func(n ast.Node) bool {
+				id, isID := n.(*ast.Ident)
+				if !isID || !ok || p.Info.Uses[id] != types.Object(g) {
+					return ok
+				}
+				var use ast.Node = id
+				par := p.Parent(use)
+				if sel, isSel := par.(*ast.SelectorExpr); isSel && sel.Sel == id {
+					use, par = sel, p.Parent(sel) // pkg.Table
+				}
+				for {
+					if pe, isParen := par.(*ast.ParenExpr); isParen {
+						use, par = pe, p.Parent(pe)
+						continue
+					}
+					break
+				}
+				switch v := par.(type) {
+				case *ast.IndexExpr:
+					if v.X != use {
+						ok = false
+						return false
+					}
+					switch gp := p.Parent(v).(type) {
+					case *ast.IncDecStmt:
+						ok = false
+					case *ast.AssignStmt:
+						for _, l := range gp.Lhs {
+							if l == ast.Expr(v) {
+								ok = false
+							}
+						}
+					case *ast.UnaryExpr:
+						if gp.Op == token.AND {
+							ok = false
+						}
+					}
+				case *ast.RangeStmt:
+					if v.X != use {
+						ok = false
+					}
+				case *ast.CallExpr:
+					if !IsBuiltinCall(p.Info, v, "len") {
+						ok = false
+					}
+				default:
+					ok = false
+				}
+				return ok
+			})
+		}
+	}
+	return ok
 }
 
 // privateAlloc: a local variable that is assigned exactly once, from &T{...} or new(T), and is only ever used as the
